@@ -525,7 +525,8 @@ let run_c07 (input : S.t) (observed : S.t) : S.t * string =
                      | S.L [S.A "e"; path; _; kind; S.L (S.A "env" :: m :: pa :: lo :: _); tok] ->
                        if S.to_string m <> "1" then add "fails:error-without-a-non-empty-message";
                        if S.to_string pa <> "1" then add "fails:error-path-has-other-than-strings-and-non-negative-integers";
-                       if S.to_string lo <> "1" then add "fails:error-location-not-positive-or-outside-the-document";
+                       if S.to_string lo = "u" then add "fails:union-member-error-located-in-the-schema-text"
+                       else if S.to_string lo <> "1" then add "fails:error-location-not-positive-or-outside-the-document";
                        S.to_string (S.L [path; kind; tok])
                      | x -> S.to_string x) es
                | x -> add "fails:shape"; [S.to_string x]) rs in
